@@ -130,7 +130,10 @@ def apply_timezone_from_settings(date_obj, settings):
     if settings is None:
         return date_obj
 
-    if "local" in settings.TIMEZONE.lower():
+    if date_obj.tzinfo is not None:
+        # already expressed in the TIMEZONE zone (epoch timestamps)
+        pass
+    elif "local" in settings.TIMEZONE.lower():
         if hasattr(tz, "localize"):
             date_obj = tz.localize(date_obj)
         else:
